@@ -597,6 +597,14 @@ func (p *vPuppet) CloseIn(node peer.ID, reset bool) {
 	}
 }
 
+// ForgetStreams drops the puppet's references to its streams (after a disconnect).
+func (p *vPuppet) ForgetStreams() {
+	p.mu.Lock()
+	p.out = map[peer.ID]network.Stream{}
+	p.in = map[peer.ID][]network.Stream{}
+	p.mu.Unlock()
+}
+
 func (p *vPuppet) Refuse(b bool) {
 	p.mu.Lock()
 	p.refuse = b
